@@ -241,6 +241,15 @@ def check_append(case):
         ns = mkstate([('L1', [('n', 'integer'), ('m', 'string')], new_rows), ('L2', [('n', 'integer')], [])])
         step = core.dataflows.load((copy.deepcopy(ns.desc), [iter(copy.deepcopy(r)) for r in ns.rows]))
         newnames = ['L1', 'L2']
+    elif how == 'load-live':
+        # the (descriptor, resources) pair is another flow's live stream: its resources must be taken one at a time, in order
+        # (that flow ends in a concatenate, whose sources are only taken from the stream while its target is being read)
+        ns = mkstate([('La', [('n', 'integer'), ('m', 'string')], new_rows[:1]), ('Lb', [('n', 'integer'), ('m', 'string')], new_rows[1:]),
+                      ('L2', [('n', 'integer')], [{'n': 5}, {'n': 6}])])
+        ds = core.Flow(core.from_state(ns, sequential=True),
+                       core.dataflows.concatenate({'n': [], 'm': []}, {'name': 'L1', 'path': 'L1.csv'}, resources=['La', 'Lb'])).datastream()
+        step = core.dataflows.load((copy.deepcopy(ds.dp.descriptor), ds.res_iter))
+        newnames = ['L1', 'L2']
     else:
         step = core.dataflows.sources([copy.deepcopy(r) for r in new_rows], [{'q': 1}])
         newnames = None
@@ -259,7 +268,8 @@ def check_append(case):
             if enc_rows(out.rows[i]) != enc_rows(st.rows[i]) or out.desc['resources'][i] != st.desc['resources'][i]:
                 v.append(('existing-changed/append-%s' % how, '%s: existing resource %r changed' % (label, names[i])))
                 break
-        exp_new = {'iterable': [new_rows], 'generator': [new_rows], 'load': [new_rows, []], 'sources': [new_rows, [{'q': 1}]]}[how]
+        exp_new = {'iterable': [new_rows], 'generator': [new_rows], 'load': [new_rows, []], 'sources': [new_rows, [{'q': 1}]],
+                   'load-live': [new_rows, [{'n': 5}, {'n': 6}]]}[how]
         if len(got) - k != len(exp_new):
             v.append(('appended-count/append-%s' % how, '%s: %d resources appended, expected %d' % (label, len(got) - k, len(exp_new))))
         elif [enc_rows(r) for r in out.rows[k:]] != [enc_rows(r) for r in exp_new]:
@@ -318,7 +328,7 @@ def cases(tier):
             for sel in sels:
                 out.append({'proc': 'delete', 'pkg': spec, 'sel': sel})
             if n <= 2 or tier == 'thorough':
-                for how in ('iterable', 'generator', 'load', 'sources'):
+                for how in ('iterable', 'generator', 'load', 'sources', 'load-live'):
                     out.append({'proc': 'append', 'pkg': spec, 'how': how})
                 for how in ('iterable', 'generator'):
                     out.append({'proc': 'append', 'pkg': spec, 'how': how, 'shifted': True})
